@@ -530,6 +530,46 @@ theorem ustarType_dev (e : Entry) (t : Nat) (h : ustarType e none = some t) (ht 
   · rw [if_neg hh] at h
     cases hf : e.ftype <;> simp [hf, ustarTypeflag] at h ⊢ <;> omega
 
+/-- The type flag byte of the finished header. -/
+theorem ustarHdr_typeflag (e : Entry) (path : List Nat) (size : Int) (t : Nat) (ht : ustarType e none = some t) :
+    (slice (ustarHdr e path size) rd_typeflag_offset 1).headD 0 = t := by
+  have hmem : (⟨ustar_typeflag_offset, rd_typeflag_size, [t]⟩ : FieldW) ∈ ustarFields e path size := by
+    simp [ustarFields, ht]
+  have := ustarPre_field e path size _ hmem
+  simp only [List.length_singleton, rd_typeflag_size, Nat.sub_self] at this
+  rw [show rd_typeflag_offset = ustar_typeflag_offset from rfl,
+      ustarHdr_slice _ _ _ _ _ (by simp [ustar_typeflag_offset]), this]
+  simp [slice]
+
+theorem ustarType_range (e : Entry) (t : Nat) (h : ustarType e none = some t) : 48 ≤ t ∧ t ≤ 54 := by
+  unfold ustarType at h
+  simp only [] at h
+  by_cases hh : e.hard ≠ []
+  · rw [if_pos hh] at h; have := Option.some.inj h; omega
+  · rw [if_neg hh] at h
+    cases hf : e.ftype <;> simp [hf, ustarTypeflag] at h <;> omega
+
+section template2
+set_option maxRecDepth 16384
+theorem tpl_magic5 : slice ustar_template 257 5 = [117, 115, 116, 97, 114] := by decide
+end template2
+
+/-- The magic field is the template's: "ustar\0" "00". -/
+theorem ustarHdr_magic (e : Entry) (path : List Nat) (size : Int) (n : Nat) (hn : n ≤ 8) :
+    slice (ustarHdr e path size) 257 n = slice ustar_template 257 n := by
+  rw [ustarHdr_slice _ _ _ _ _ (by omega)]
+  unfold ustarPre
+  rw [ustarWrites_eq_fields]
+  apply field_untouched _ _ _ _ (ustarFields_fit e path size)
+  simp only [ustarFields, ustarNumFields, List.map, List.zip, List.zipWith, List.cons_append, List.nil_append,
+    List.mem_cons, List.mem_nil_iff, or_false, forall_eq_or_imp, forall_eq,
+    ustar_prefix_offset, ustar_name_offset, ustar_linkname_offset, ustar_uname_offset, ustar_gname_offset,
+    ustar_mode_offset, ustar_uid_offset, ustar_gid_offset, ustar_size_offset, ustar_mtime_offset,
+    ustar_rdevmajor_offset, ustar_rdevminor_offset, ustar_typeflag_offset,
+    rd_prefix_size, rd_name_size, rd_linkname_size, rd_uname_size, rd_gname_size, rd_mode_size, rd_uid_size,
+    rd_gid_size, rd_size_size, rd_mtime_size, rd_rdevmajor_size, rd_rdevminor_size, rd_typeflag_size]
+  omega
+
 /-- **Decoding what the writer encoded**: the model reader on the model writer's 512 bytes
 returns the entry's own field values. -/
 theorem ustarDecode_ustarHdr (e : Entry) (path : List Nat) (size : Int) (t : Nat)
